@@ -70,6 +70,10 @@ func runC10(c *core.Ctx) {
 	nontrivial := false
 	nAU := 1 + t.Intn(12)
 	foreign := c.Config == "foreign"
+	// supersede mode: SPS/PPS sprinkled freely, so a held set may be replaced by a later one (by design of
+	// the hold-back). The statement's exact-sequence clause is about pairs; what still must hold then is the
+	// necessary condition "nothing invented, nothing reordered, no ordinary unit lost".
+	supersede := !foreign && !opts.disableStapA && t.Chance(1, 8)
 	c.Logf("config=%s mtu=%d stapA=%v avc=%v AUs=%d", c.Config, mtu, !opts.disableStapA, avc, nAU)
 	cons := &h264Consumer{c: c, mtu: mtu, stapA: !opts.disableStapA}
 	var sendAU func(k int)
@@ -77,7 +81,7 @@ func runC10(c *core.Ctx) {
 		if k >= nAU {
 			return
 		}
-		au := genH264AU(t, mtu, !foreign, &state)
+		au := genH264AUx(t, mtu, !foreign, &state, supersede)
 		if state != 0 {
 			c.Probe("sps-one-call-pps-next")
 			nontrivial = true
@@ -127,7 +131,9 @@ func runC10(c *core.Ctx) {
 			if c.Guard("codecs.H264Payloader.Payload", func() { payloads = pay.Payload(uint16(mtu), input) }) {
 				return
 			}
-			cons.feed(payloads, units)
+			if !supersede {
+				cons.feed(payloads, units)
+			}
 		}
 		c.Logf("AU %d: %d units -> %d payloads %s", k, len(au.units), len(payloads), heads(payloads))
 		for i, p := range payloads {
@@ -161,6 +167,48 @@ func runC10(c *core.Ctx) {
 	}
 	if !ok {
 		c.Violate("lossless", "C10/nal-sequence/output-not-framed", "receiver output is not a sequence of %s-framed units", map[bool]string{true: "AVC", false: "Annex-B"}[avc])
+		return
+	}
+	if supersede {
+		c.Probe("superseded-parameter-sets")
+		// (1) the ordinary units arrive exactly, in order; (2) every received parameter set is one that was
+		// sent (held sets may be superseded or delayed past ordinary units by design, never altered)
+		var sentOrd, gotOrd, sentPar [][]byte
+		for _, u := range expected {
+			if typ := u[0] & 0x1F; typ == 7 || typ == 8 {
+				sentPar = append(sentPar, u)
+			} else {
+				sentOrd = append(sentOrd, u)
+			}
+		}
+		for _, u := range units {
+			if typ := u[0] & 0x1F; typ == 7 || typ == 8 {
+				found := false
+				for i, p := range sentPar {
+					if p != nil && bytes.Equal(p, u) {
+						sentPar[i] = nil
+						found = true
+						break
+					}
+				}
+				if !found {
+					c.Violate("lossless", "C10/nal-sequence/supersede/parameter-set-not-sent", "the receiver produced a parameter set (type %d, %d bytes) that was never sent in this form (mtu %d)", u[0]&0x1F, len(u), mtu)
+					return
+				}
+			} else {
+				gotOrd = append(gotOrd, u)
+			}
+		}
+		if len(gotOrd) != len(sentOrd) {
+			c.Violate("lossless", "C10/nal-sequence/supersede/ordinary-unit-count", "sent %d ordinary units, received %d (mtu %d)", len(sentOrd), len(gotOrd), mtu)
+			return
+		}
+		for i := range sentOrd {
+			if !bytes.Equal(sentOrd[i], gotOrd[i]) {
+				c.Violate("lossless", "C10/nal-sequence/supersede/ordinary-unit-differs", "ordinary unit %d differs (type %d, %d vs %d bytes)", i, sentOrd[i][0]&0x1F, len(sentOrd[i]), len(gotOrd[i]))
+				return
+			}
+		}
 		return
 	}
 	// parameter sets still held at the end of the stream have not been sent yet
